@@ -109,6 +109,10 @@ fn main() {
     }
 }
 
+pub fn peek_panic() -> bool {
+    LAST_PANIC.lock().unwrap_or_else(|e| e.into_inner()).is_some()
+}
+
 pub fn take_panic() -> Option<(String, String)> {
     LAST_PANIC.lock().unwrap_or_else(|e| e.into_inner()).take()
 }
